@@ -145,7 +145,50 @@ func (t *Dense) Reshape(dims ...int) error {
 		t.Transpose()
 	}
 
+	// reshape only installs the default strides of the new shape, which is right when the data already is
+	// in the default layout of the old one
+	if t.viewOf == 0 && !t.hasDefaultLayout() {
+		t.compact()
+	}
+
 	return t.reshape(dims...)
+}
+
+// hasDefaultLayout reports whether the array of t holds exactly the elements of t, laid out with the strides
+// that its shape and data order imply. A tensor that owns its data usually does. Some copies do not: the clone
+// of a non-contiguous view keeps the length and the strides of the view, so does the result of UT() on a SafeT()
+// of a transposed tensor.
+func (t *Dense) hasDefaultLayout() bool {
+	if t.len() != t.Size() {
+		return false
+	}
+	expected := t.AP.calcStrides()
+	defer ReturnInts(expected)
+	if len(expected) != len(t.strides) {
+		return false
+	}
+	for i, s := range expected {
+		if t.strides[i] != s {
+			return false
+		}
+	}
+	return true
+}
+
+// compacted returns a copy of t that holds the elements of t in the default layout of its shape and data order.
+func (t *Dense) compacted() *Dense {
+	retVal := newDenseLike(t.e, t.t, t)
+	copyDenseIter(retVal, t, nil, nil)
+	return retVal
+}
+
+// compact gives t a new array that holds its elements (and its mask) in the default layout of its shape and data order.
+func (t *Dense) compact() {
+	p := t.compacted()
+	t.array = p.array
+	t.mask = p.mask
+	t.AP.o = p.AP.o
+	t.setShape(p.shape...)
 }
 
 func (t *Dense) reshape(dims ...int) error {
